@@ -7,6 +7,7 @@ use crate::settings::verif_kani_settings::base as base_settings;
 use std::cell::RefCell;
 
 include!("/verif/build/gen/conflict_block.rs");
+include!("/verif/build/gen/sort_block.rs");
 
 fn any_assoc() -> Associativity {
     match kani::any::<u8>() {
@@ -341,12 +342,9 @@ fn c5_real_types_shift() {
 
 /// C05 "shift priority = max priority of productions shifting the terminal in this state": the real
 /// LRState::group_per_next_symbol on a state with two items that both have terminal 1 right of the dot, from productions
-/// of symbolic priorities (every pair of u32 values, either order).  bounded: two items, one terminal.
-#[kani::proof]
-#[kani::unwind(6)]
-fn max_prior_for_term_is_max() {
-    let p1: u32 = kani::any();
-    let p2: u32 = kani::any();
+/// of priorities (p1, p2).  bounded: two items, one terminal, a decision table of the three orderings of the two
+/// priorities with concrete values (with symbolic priorities the BTreeMap entry API exceeded the 20 GB cap -- measured).
+fn max_prior_case(p1: u32, p2: u32) {
     let mk = |prio: u32, idx: usize| Production {
         idx: ProdIndex(idx),
         nonterminal: NonTermIndex(0),
@@ -367,18 +365,22 @@ fn max_prior_for_term_is_max() {
     let groups = state.group_per_next_symbol();
     let want = if p1 >= p2 { p1 } else { p2 };
     assert!(state.max_prior_for_term.len() == 1);
-    assert!(state.max_prior_for_term.get(&TermIndex(1)) == Some(&want));
+    assert!(state.max_prior_for_term.get(&TermIndex(1)) == Some(&want), "C05: shift priority is not the maximum over the shifting productions");
     // both items are grouped under the symbol right of the dot, in item order
     let g = groups.get(&SymbolIndex(1));
     assert!(groups.len() == 1);
     assert!(matches!(g, Some(v) if v.len() == 2 && v[0] == ItemIndex(0) && v[1] == ItemIndex(1)));
-    kani::cover!(p1 > p2);
-    kani::cover!(p1 < p2);
-    kani::cover!(p1 == p2);
-    kani::cover!(true);
     std::mem::forget(groups);
     std::mem::forget(state);
     std::mem::forget(grammar_owned);
+}
+#[kani::proof]
+#[kani::unwind(6)]
+fn max_prior_for_term_is_max() {
+    max_prior_case(5, 9);
+    max_prior_case(9, 5);
+    max_prior_case(7, 7);
+    kani::cover!(true, "all cases executed");
 }
 
 /// C01: LRItem predicates.  complete (loop-free, all usize values).
@@ -506,6 +508,88 @@ fn sort_terminals_more() {
     // same string length, same priority: grammar order; a lower group follows
     sort_terminals_case([10, 10, 5], [1, 1, 4], [true, true, true], false);
     kani::cover!(true, "all cases executed");
+}
+
+// ---------------------------------------------------------------------------------------------------------------
+/// C06 sort_terminals on the BLOCK LIFT of its ordering + finish-flag statements (build/gen/sort_block.rs): three real
+/// `Terminal`s with SYMBOLIC priorities (every triple of values <= 99, the range the grammar language admits) and a symbolic
+/// most-specific flag; the recognizer kinds are concrete per case (building a String under a symbolic branch is what made
+/// the harness on the real LRTable exceed 25 minutes).  Oracle from the property text: priority descending; then, if
+/// enabled, string recognizers by length before regexes; then grammar order; finish flag = (most-specific and string
+/// recognizer) or last of its priority group with a lower group following.  bounded: three terminals, recognizers of
+/// length <= 3.  Which terminals enter (those with actions in the state) is computed in front of the lifted range.
+fn sort_block_case(rk: [u8; 3]) {
+    const N: usize = 3;
+    let prio: [u32; 3] = kani::any();
+    kani::assume(prio[0] <= 99 && prio[1] <= 99 && prio[2] <= 99);
+    let ms: bool = kani::any();
+    let settings = SortSettings { lexical_disamb_most_specific: ms };
+    let terms = [
+        Terminal { idx: TermIndex(0), prio: prio[0], recognizer: any_recognizer(rk[0]), ..Default::default() },
+        Terminal { idx: TermIndex(1), prio: prio[1], recognizer: any_recognizer(rk[1]), ..Default::default() },
+        Terminal { idx: TermIndex(2), prio: prio[2], recognizer: any_recognizer(rk[2]), ..Default::default() },
+    ];
+    let mut v: Vec<&Terminal> = Vec::with_capacity(4);
+    v.push(&terms[0]);
+    v.push(&terms[1]);
+    v.push(&terms[2]);
+    let mut state = SortState { sorted_terminals: Vec::new() };
+    SortCtx { settings: &settings }.sort_block(v, &mut state);
+    let sorted = &state.sorted_terminals;
+    let spec = |t: usize| -> u32 { if ms && rk[t] >= 1 && rk[t] <= 3 { rk[t] as u32 } else { 0 } };
+    let is_str = |t: usize| -> bool { rk[t] >= 1 && rk[t] <= 3 };
+    // 1. a permutation of the three terminals
+    assert!(sorted.len() == N);
+    let mut t = 0;
+    while t < N {
+        let mut c = 0;
+        let mut j = 0;
+        while j < N { if sorted[j].0 == TermIndex(t) { c += 1; } j += 1; }
+        assert!(c == 1, "C06: a terminal was lost or duplicated");
+        t += 1;
+    }
+    // 2. order: priority descending; then (if enabled) most specific first; then grammar order
+    let mut j = 0;
+    while j + 1 < N {
+        let (a, b) = (sorted[j].0 .0, sorted[j + 1].0 .0);
+        assert!(a < N && b < N);
+        assert!(prio[a] > prio[b] || (prio[a] == prio[b] && (spec(a) > spec(b) || (spec(a) == spec(b) && a < b))), "C06: terminals tried in the wrong order");
+        j += 1;
+    }
+    // 3. finish flags
+    let mut j = 0;
+    while j < N {
+        let a = sorted[j].0 .0;
+        let group_end = j + 1 < N && prio[sorted[j + 1].0 .0] != prio[a];
+        assert!(sorted[j].1 == ((ms && is_str(a)) || group_end), "C06: wrong finish flag");
+        j += 1;
+    }
+    kani::cover!(prio[0] < prio[1] && prio[1] < prio[2], "ascending priorities");
+    kani::cover!(prio[0] == prio[1] && prio[1] == prio[2] && ms, "one group, most specific on");
+    kani::cover!(prio[0] == prio[2] && prio[1] > prio[0] && !ms, "two groups, most specific off");
+    std::mem::forget(state);
+    std::mem::forget(terms);
+}
+/// recognizers "ab", regex, "abc"
+#[kani::proof]
+#[kani::unwind(8)]
+fn sort_block_strings_and_regex() {
+    sort_block_case([2, 4, 3]);
+    kani::cover!(true, "case executed");
+}
+/// recognizers regex, "a", "a" (equal strings: grammar order)
+#[kani::proof]
+#[kani::unwind(8)]
+fn sort_block_equal_strings() {
+    sort_block_case([4, 1, 1]);
+    kani::cover!(true, "case executed");
+}
+/// no recognizer (custom lexer), regex, "abc"
+#[kani::proof]
+#[kani::unwind(8)]
+fn sort_block_no_recognizer() {
+    sort_block_case([0, 4, 3]);
+    kani::cover!(true, "case executed");
 }
 
 // ---------------------------------------------------------------------------------------------------------------
